@@ -8,6 +8,10 @@ CLAIMED = {
             "violates the partition/proportion assertions; percentages and weights range over stated finite sets.",
             "z3 is trusted; floats modelled as exact rationals under |operand| < 2^40; abstract children satisfy the widget contract."),
 }
+CLAIMED["C01"] = ("model_checking", "5 C01",
+    "Assume-guarantee over the widget tree: each container/decoration class is executed symbolically with abstract children for unbounded sizes "
+    "and options, the solver showing the rendered canvas has exactly the requested size on every path; leaves are discharged on symbolic text.",
+    "z3 trusted; children assumed to satisfy the widget contract (proved separately for the bundled leaves within the text-length bounds).")
 NOT_YET = {}
 TECH = "bounded symbolic execution of the real urwid code (AST-lifted import of /repo) with z3 deciding every path obligation; counterexamples replayed on the un-lifted code"
 def main():
